@@ -90,6 +90,26 @@ impl<'de> serde::Deserialize<'de> for SAny {
         d.deserialize_any(V)
     }
 }
+/// A visitor that accepts two kinds of item only: everything else ends in serde's *provided* error constructors
+/// (`invalid_type` here; `unknown_field`, `invalid_value`, `invalid_length` through the two types below).
+#[derive(Debug, PartialEq)]
+enum SPicky { N(u64), S(u32) }
+impl<'de> serde::Deserialize<'de> for SPicky {
+    fn deserialize<D: serde::Deserializer<'de>>(d: D) -> Result<Self, D::Error> {
+        struct V;
+        impl<'de> serde::de::Visitor<'de> for V {
+            type Value = SPicky;
+            fn expecting(&self, f: &mut core::fmt::Formatter) -> core::fmt::Result { f.write_str("a number or a name") }
+            fn visit_u64<E: serde::de::Error>(self, v: u64) -> Result<SPicky, E> { Ok(SPicky::N(v)) }
+            fn visit_borrowed_str<E: serde::de::Error>(self, v: &'de str) -> Result<SPicky, E> { Ok(SPicky::S(fnv(v))) }
+        }
+        d.deserialize_any(V)
+    }
+}
+#[derive(Debug, serde::Deserialize, PartialEq)]
+#[serde(deny_unknown_fields)]
+struct SStrict { a: u8, o: Option<i32> }
+
 /// Serialised through `collect_str` (Display).
 struct Disp(u32);
 impl core::fmt::Display for Disp { fn fmt(&self, f: &mut core::fmt::Formatter) -> core::fmt::Result { write!(f, "#{}", self.0) } }
@@ -196,6 +216,7 @@ fn run(input: &[u8], o: &mut Out) {
     // ---- serde bridge --------------------------------------------------------------------------
     macro_rules! sd { ($name:expr, $t:ty) => {{ let mut d = minicbor_serde::Deserializer::new(input); let r: Result<$t, _> = serde::Deserialize::deserialize(&mut d); let p = d.decoder().position(); o.rec($name, r.map(|v| digest(&v)).map_err(|e| sclass(&e)), p) }} }
     sd!("S:u8", u8); sd!("S:i64", i64); sd!("S:bool", bool); sd!("S:char", char); sd!("S:&str", &str); sd!("S:()", ()); sd!("S:Option<u16>", Option<u16>); sd!("S:(u8,bool)", (u8, bool)); sd!("S:[u8;3]", [u8; 3]);
+    sd!("S:SPicky", SPicky); sd!("S:SStrict", SStrict); sd!("S:NonZeroU8", core::num::NonZeroU8); sd!("S:(u8,u8,u8)", (u8, u8, u8));
     sd!("S:SPlain", SPlain); sd!("S:SEnum", SEnum); sd!("S:SAny", SAny); sd!("S:IgnoredAny", serde::de::IgnoredAny);
     { let mut d = minicbor_serde::Deserializer::new(input); let r: Result<f32, _> = serde::Deserialize::deserialize(&mut d); let p = d.decoder().position(); o.rec("S:f32", r.map(|v| v.to_bits()).map_err(|e| sclass(&e)), p) }
     #[cfg(feature = "alloc")]
